@@ -1,37 +1,44 @@
-import DFV.Lemmas.C14H5
+import DFV.Lemmas.C13StoreSim
 /-!
 # C14 — subregions stay inside, aligned with and measured in cells of their mesh
 -/
 namespace DFV.C14
 open DFV DFV.T
 
-/-- attaching subregions that are not all acceptable is rejected (and, the model being
-functional, the previous subregions are kept) -/
+/-- attaching subregions that are not all acceptable (`candOk`: the three tests on the candidate
+re-created with the mesh region's names, units and tolerance factor — repo fix 5591fed0) is rejected
+(and, the model being functional, the previous subregions are kept) -/
 theorem set_rejects (m : Mesh) (subs : List (String × Region)) (p : String × Region) (hp : p ∈ subs)
-    (hbad : subOk m p.2 = false) : setSubs m subs = .error .value := by
+    (hbad : candOk m p.2 = false) : setSubs m subs = .error .value := by
   unfold setSubs
-  have : subs.all (fun p => subOk m p.2) = false := by
+  have : subs.all (fun p => candOk m p.2) = false := by
     rw [List.all_eq_false]; exact ⟨p, hp, by simp [hbad]⟩
   simp [this]
 
 /-- accepted subregions carry the mesh's dimension names, units and tolerance, keep
-their corners, names and order -/
+their corners, names and order — and every STORED subregion passes the three tests (inside, whole
+cells, aligned) as it is stored, with the mesh's tolerance factor (what repo fix 5591fed0 guarantees:
+the candidate's own tolerance has no say) -/
 theorem set_accepts (m m' : Mesh) (subs : List (String × Region)) (h : setSubs m subs = .ok m') :
-    (∀ p ∈ subs, subOk m p.2 = true) ∧
+    (∀ p ∈ subs, candOk m p.2 = true) ∧
     m'.subs.map (·.1) = subs.map (·.1) ∧
     (∀ q ∈ m'.subs, q.2.dims = m.region.dims ∧ q.2.units = m.region.units ∧ q.2.tol = m.region.tol) ∧
     m'.subs.map (fun q => (q.2.pmin, q.2.pmax)) = subs.map (fun q => (q.2.pmin, q.2.pmax)) ∧
-    m'.region = m.region ∧ m'.n = m.n := by
+    m'.region = m.region ∧ m'.n = m.n ∧ (∀ q ∈ m'.subs, subOk m q.2 = true) := by
   unfold setSubs at h
   split at h
   · rename_i hall
     injection h with h
     subst h
-    refine ⟨fun p hp => List.all_eq_true.mp hall p hp, by simp [Function.comp_def], ?_, by simp [Function.comp_def], rfl, rfl⟩
-    intro q hq
-    simp only [List.mem_map] at hq
-    obtain ⟨p, _, rfl⟩ := hq
-    exact ⟨rfl, rfl, rfl⟩
+    refine ⟨fun p hp => List.all_eq_true.mp hall p hp, by simp [Function.comp_def], ?_, by simp [Function.comp_def], rfl, rfl, ?_⟩
+    · intro q hq
+      simp only [List.mem_map] at hq
+      obtain ⟨p, _, rfl⟩ := hq
+      exact ⟨rfl, rfl, rfl⟩
+    · intro q hq
+      simp only [List.mem_map] at hq
+      obtain ⟨p, hp, rfl⟩ := hq
+      exact candOk_stored_ok m p.2 (List.all_eq_true.mp hall p hp)
   · cases h
 
 /-! ## `is_aligned`: the remainder test -/
@@ -445,7 +452,7 @@ into a dictionary of regions and that dictionary passed the `subregions` setter 
 mesh: every attached subregion passed the inside / whole-cell / lattice tests of THIS mesh and
 carries its names, units and tolerance; region and counts of the mesh are untouched. -/
 theorem load_through_setter (m m' : Mesh) (j : JV) (h : loadSubs m j = .ok m') :
-    ∃ subs, subsOfJV j = .ok subs ∧ setSubs m subs = .ok m' ∧ (∀ p ∈ subs, subOk m p.2 = true) ∧
+    ∃ subs, subsOfJV j = .ok subs ∧ setSubs m subs = .ok m' ∧ (∀ p ∈ subs, candOk m p.2 = true) ∧
       m'.subs = subs.map (restamp m.region) ∧ m'.region = m.region ∧ m'.n = m.n := by
   obtain ⟨subs, h1, h2⟩ := load_inv' m m' j h
   obtain ⟨e, hall⟩ := setSubs_ok_eq m m' subs h2
@@ -454,7 +461,7 @@ theorem load_through_setter (m m' : Mesh) (j : JV) (h : loadSubs m j = .ok m') :
 /-- … so a side-car that does not fit the mesh (some decoded box fails one of the three tests) is
 rejected — and, the model being functional, the mesh keeps its previous subregions. -/
 theorem load_rejects_misfit (m : Mesh) (j : JV) (subs : List (String × Region)) (p : String × Region)
-    (hd : subsOfJV j = .ok subs) (hp : p ∈ subs) (hbad : subOk m p.2 = false) :
+    (hd : subsOfJV j = .ok subs) (hp : p ∈ subs) (hbad : candOk m p.2 = false) :
     loadSubs m j = .error .value := by
   unfold loadSubs; rw [hd]; exact set_rejects m subs p hp hbad
 
@@ -490,16 +497,18 @@ theorem hdf5_loaded_subInv (m : C10.TMesh) (hs : SubInv (meshOfT m)) :
   h5_loaded_subInv' m hs
 
 /-- **Whatever an HDF5 file contains, loaded subregions went through the setter** of the mesh the
-reader builds: every candidate row passed the inside / whole-cell / lattice tests of that mesh, and
-every stored subregion is the candidate re-created with the mesh's dimension names, units and
-tolerance (corners ordered, names kept) — so a table that does not fit the stored geometry makes
-the load fail instead of attaching misfitting subregions. -/
+reader builds: every candidate row passed the setter's check (the inside / whole-cell / lattice tests on
+the candidate re-created with the mesh's metadata: repo fix 5591fed0), every stored subregion is the
+candidate re-created with the mesh's dimension names, units and tolerance (corners ordered, names kept),
+and every STORED subregion passes the three tests of that mesh as it is stored — so a table that does not
+fit the stored geometry makes the load fail instead of attaching misfitting subregions. -/
 theorem hdf5_load_through_setter (h : C10.H5Mesh) (g : C10.TMesh) (hg : C10.meshLoad h = .ok g) :
     ∃ cands : List (String × C10.TReg), C10.setSubs g.region g.n cands = .ok g.subs ∧
-      (∀ c ∈ cands, C10.subAccept g.region.toRegion g.n c.2.toRegion = true) ∧
+      (∀ c ∈ cands, C10.candOk g.region g.n c.2 = true) ∧
       List.Forall₂ (fun c p => p.1 = c.1 ∧ p.2.dims = g.region.dims ∧ p.2.units = g.region.units ∧
           p.2.tol = g.region.tol ∧ p.2.pmin = C10.NumArr.minimum c.2.pmin c.2.pmax ∧
-          p.2.pmax = C10.NumArr.maximum c.2.pmin c.2.pmax) cands g.subs :=
+          p.2.pmax = C10.NumArr.maximum c.2.pmin c.2.pmax) cands g.subs ∧
+      (∀ p ∈ g.subs, C10.subAccept g.region.toRegion g.n p.2.toRegion = true) :=
   h5_load_through_setter' h g hg
 
 /-- **C10's model of the subregion setter's tests and C14's are the same function**: inside the
@@ -509,11 +518,11 @@ theorem setter_models_agree (r : Region) (n : List Nat) (s : Region) :
     C10.subAccept r n s = T.subOk { region := r, n := n, bc := "", subs := [] } s :=
   subAccept_eq_subOk r n s
 
-/-- … so every candidate an HDF5 load attaches passed exactly the tests `subOk` of the loaded mesh
-that `set_accepts` / `set_rejects` / `set_accepts_exact` are about. -/
+/-- … so every subregion an HDF5 load attaches passes — as it is stored — exactly the three tests `subOk`
+of the loaded mesh that `set_accepts` / `set_rejects` / `set_accepts_exact` are about. -/
 theorem hdf5_load_passed_subOk (h : C10.H5Mesh) (g : C10.TMesh) (hg : C10.meshLoad h = .ok g) :
     ∃ cands : List (String × C10.TReg), C10.setSubs g.region g.n cands = .ok g.subs ∧
-      ∀ c ∈ cands, T.subOk (meshOfT g) c.2.toRegion = true :=
+      ∀ p ∈ g.subs, T.subOk (meshOfT g) p.2.toRegion = true :=
   h5_load_subOk h g hg
 
 /-- non-vacuity of the HDF5 theorems: `exT` is `exM` with integer region corners, one subregion with
@@ -534,5 +543,188 @@ example : isAligned ⟨⟨[0, 0], [4, 2], ["x", "y"], ["m", "m"], 0⟩, [4, 2], 
                     ⟨⟨[2, 1], [5, 2], ["x", "y"], ["m", "m"], 0⟩, [3, 1], "", []⟩ = true := by decide +kernel
 example : isAligned ⟨⟨[0, 0], [4, 2], ["x", "y"], ["m", "m"], 0⟩, [4, 2], "", []⟩
                     ⟨⟨[1/2, 1], [7/2, 2], ["x", "y"], ["m", "m"], 0⟩, [3, 1], "", []⟩ = false := by decide +kernel
+
+/-! ## round 3: the tolerant tests as the code evaluates them, in exact rational arithmetic -/
+
+/-- **`is_aligned`, one corner offset, as an iff**: the remainder test accepts the offset `d` iff `d` is
+within the tolerance `t` of a whole number of cells — both directions (round 2 had soundness only),
+every `t`, every cell size. -/
+theorem aligned_tol_iff (d c t : Rat) (hc : 0 < c) :
+    misalignedAx d c t = false ↔ ∃ z : Int, |d - (z : Rat) * c| ≤ t :=
+  misalignedAx_false_iff d c t hc
+
+/-- **the whole-cell test of `Mesh(region = candidate, cell = mesh.cell)`, one axis, as an iff**: an edge `e`
+passes iff it is within `t` of a whole number of cells, where the code takes `t = min(cell)/1000` -/
+theorem divisible_tol_iff (e c t : Rat) (hc : 0 < c) :
+    Mesh.notDivisible e c t = false ↔ ∃ z : Int, |e - (z : Rat) * c| ≤ t :=
+  notDivisible_false_iff e c t hc
+
+/-- **`subregion in region` with its absolute + relative tolerance**: both corners of the candidate must
+satisfy `pmin − (atol + rtol·|x|) ≤ x ≤ pmax + (atol + rtol·|x|)` per axis, `rtol` = the REGION's
+`tolerance_factor`, `atol = min(edges)·tolerance_factor` — the region version of
+`DFV.C01.contains_iff_tolerance`.  The candidate's own tolerance factor does not occur. -/
+theorem inside_iff_tolerance (r : Region) (hr : r.Inv) (ht : 0 ≤ r.tol) (s : Region) :
+    r.containsReg s = true ↔
+      s.pmin.length = r.ndim ∧ s.pmax.length = r.ndim ∧ ∀ a, a < r.ndim →
+        (r.lo a - band r (s.lo a) ≤ s.lo a ∧ s.lo a ≤ r.hi a + band r (s.lo a)) ∧
+        (r.lo a - band r (s.hi a) ≤ s.hi a ∧ s.hi a ≤ r.hi a + band r (s.hi a)) :=
+  containsReg_iff_tolerance r hr ht s
+
+/-- **D18 as an iff, first half — an aligned box is rejected**: a corner offset that is a whole number
+of cells up to an error `ε` with `|ε| ≤ c/2` (the rounding error of a far-away or rotated coordinate)
+fails the alignment test iff `|ε| > t`; `t` is the ABSOLUTE `1e-12` of the code, so the verdict does
+not look at the size of `ε` relative to the cell or to the coordinates. -/
+theorem d18_aligned_rejected_iff (z : Int) (c ε t : Rat) (hc : 0 < c) (hε : |ε| ≤ c / 2) :
+    misalignedAx ((z : Rat) * c + ε) c t = true ↔ t < |ε| :=
+  aligned_perturbed_rejected_iff z c ε t hc hε
+
+/-- **D18 as an iff, second half — a misaligned box is accepted**: a corner offset by HALF a cell from
+the lattice passes the alignment test iff `c ≤ 2t` (cells of at most `2e-12` with the default). -/
+theorem d18_half_cell_accepted_iff (z : Int) (c t : Rat) (hc : 0 < c) :
+    misalignedAx (((z : Rat) + 1 / 2) * c) c t = false ↔ c ≤ 2 * t :=
+  half_cell_accepted_iff z c t hc
+
+/-- **`is_aligned` is not scale invariant — the exact law**: with both meshes scaled by `s > 0` and the
+same absolute tolerance `t`, the answer is the answer at the original scale with tolerance `t / s`
+(cell-size comparison and both corner tests).  The whole-cell test, whose tolerance is a fraction of
+the cell, IS invariant. -/
+theorem is_aligned_scale_law (s : Rat) (hs : 0 < s) (m o : Mesh) (t e c t' : Rat) :
+    isAligned (scaleMesh s m) (scaleMesh s o) t = isAligned m o (t / s) ∧
+    Mesh.notDivisible (s * e) (s * c) (s * t') = Mesh.notDivisible e c t' :=
+  ⟨isAligned_scale s hs m o t, notDivisible_scale s e c t' hs⟩
+
+/-- **An exact fit is accepted at every length scale**: if a box fits a mesh exactly (`FitsE`), then for
+every `σ > 0` the box scaled by `σ` passes all three tolerant tests of the mesh scaled by `σ` — as given and as
+the setter tests it (re-created with the mesh's metadata) — the absolute tolerance of `is_aligned` can only hurt boxes whose stored corners are NOT exactly
+on the lattice (`d18_aligned_rejected_iff`). -/
+theorem exact_fit_accepted_at_every_scale (m : Mesh) (hm : m.Inv) (s : Region) (h : FitsE m s) (σ : Rat) (hσ : 0 < σ) :
+    subOk (scaleMesh σ m) (scaleReg σ s) = true ∧ candOk (scaleMesh σ m) (scaleReg σ s) = true :=
+  ⟨subOk_of_fits _ (scaleMesh_inv σ hσ m hm) _ (fitsE_scale σ m s h),
+   candOk_of_fits _ (scaleMesh_inv σ hσ m hm) _ (fitsE_scale σ m s h)⟩
+
+/-- **The setter's outcome does not depend on the candidates' dimension names, units or tolerance
+factors** — true of the code since repo fix 5591fed0 (finding D132): every candidate of the mesh's
+dimension is first re-created with the mesh region's names, units and tolerance factor and the three
+tests are made on that copy, which is also what is stored (`set_accepts`).  Replacing the metadata of
+every candidate by anything gives the same result: the same error or the same mesh. -/
+theorem setter_ignores_candidate_metadata (m : Mesh) (subs : List (String × Region)) (d u : String × Region → List String)
+    (t : String × Region → Rat) :
+    setSubs m (subs.map fun p => (p.1, { p.2 with dims := d p, units := u p, tol := t p })) = setSubs m subs := by
+  unfold setSubs
+  have h1 : (subs.map fun p => (p.1, ({ p.2 with dims := d p, units := u p, tol := t p } : Region))).all (fun p => candOk m p.2)
+      = subs.all (fun p => candOk m p.2) := by
+    rw [List.all_map]
+    apply List.all_congr rfl
+    intro p
+    exact candOk_indep m p.2 (d p) (u p) (t p)
+  rw [h1, List.map_map]
+  rfl
+
+/-- … for one candidate: its own tolerance factor has no say (before the fix it had: next theorem) -/
+theorem setter_ignores_candidate_tol (m : Mesh) (s : Region) (t' : Rat) : candOk m { s with tol := t' } = candOk m s :=
+  candOk_indep m s s.dims s.units t'
+
+/-- **Why the re-creation matters (witness of finding D132).**  Mesh `[0, 0.002]`, two cells; candidate
+`[0, 0.001 − 1e-13]` — shorter than one cell by `1e-10` cells.  The three tests made on the candidate AS
+GIVEN (what the setter did before repo fix 5591fed0) refuse it when it carries the default tolerance
+factor `1e-12` but pass it when it carries `1e-3`: the test `Region(pmin, pmin + cell) in candidate` of
+`Mesh(region = candidate, cell = mesh.cell)` runs with the tolerance of the region it is given.  The
+setter's check `candOk` re-creates the candidate with the mesh's `1e-12` first and refuses both. -/
+theorem candidate_tolerance_decides_witness :
+    subOk ⟨⟨[0], [2/1000], ["x"], ["m"], 1/1000000000000⟩, [2], "", []⟩
+      ⟨[0], [1/1000 - 1/10000000000000], ["x"], ["m"], 1/1000000000000⟩ = false ∧
+    subOk ⟨⟨[0], [2/1000], ["x"], ["m"], 1/1000000000000⟩, [2], "", []⟩
+      ⟨[0], [1/1000 - 1/10000000000000], ["x"], ["m"], 1/1000⟩ = true ∧
+    candOk ⟨⟨[0], [2/1000], ["x"], ["m"], 1/1000000000000⟩, [2], "", []⟩
+      ⟨[0], [1/1000 - 1/10000000000000], ["x"], ["m"], 1/1000000000000⟩ = false ∧
+    candOk ⟨⟨[0], [2/1000], ["x"], ["m"], 1/1000000000000⟩, [2], "", []⟩
+      ⟨[0], [1/1000 - 1/10000000000000], ["x"], ["m"], 1/1000⟩ = false := by
+  decide +kernel
+
+/-- **The copying form of translate / scale / rotate90 is the constructor applied to the in-place
+result** — for ANY mesh satisfying the mesh invariant whose subregions are proper regions (they need
+not fit exactly: tolerance-accepted boxes, boxes moved by inexact arithmetic): with `T` the result of
+the in-place form, the copying form evaluates `Mesh(region=T.region, n=T.n, bc=T.bc,
+subregions=T.subregions)`, returning that mesh with the receiver untouched or failing with it; and a
+step rejected in place is rejected by the copying form. -/
+theorem copy_form_is_constructor_of_inplace (m : Mesh) (hm : m.Inv) (hp : ∀ p ∈ m.subs, p.2.Inv) (op : Op) :
+    (∀ T1 T2, stepM m (op.withInplace true) = .ok (T1, T2) →
+      T1 = T2 ∧ stepM m (op.withInplace false) =
+        match mkMesh? T2.region T2.n T2.bc T2.subs with
+        | .error e => .error e
+        | .ok m' => .ok (m, m')) ∧
+    ((∃ e, stepM m (op.withInplace true) = .error e) → ∃ e, stepM m (op.withInplace false) = .error e) :=
+  stepM_copy_is_ctor m hm hp op
+
+/-- **In-place == copying holds exactly when the in-place result passes the setter's tests** (finding
+D18 delimited, as D57 was): same hypotheses, `T` the in-place result.  The copying form is accepted
+IFF `T.bc` passes the `bc` check and every subregion of `T` passes the setter's check against `T` (the inside
+test, the 0.1 % whole-cell test and the absolute-`1e-12` alignment test, made on the subregion with `T`'s
+metadata); when it is, it returns `T` with `bc` lower-cased
+and the subregions re-created with `T`'s names, units and tolerance.  For exactly fitting subregions
+(`SubInv`) the condition always holds (`DFV.C13.inplace_eq_copy_mesh_complete`); it fails only for
+subregions whose corners are off the lattice by more than the tolerances (`d18_aligned_rejected_iff`). -/
+theorem copy_accepted_iff_inplace_passes (m : Mesh) (hm : m.Inv) (hp : ∀ p ∈ m.subs, p.2.Inv) (op : Op) (T1 T : Mesh)
+    (hT : stepM m (op.withInplace true) = .ok (T1, T)) :
+    ((∃ y m', stepM m (op.withInplace false) = .ok (y, m')) ↔
+      (Mesh.bcOk T.region.dims T.bc.toLower = true ∧ ∀ p ∈ T.subs, candOk T p.2 = true)) ∧
+    (∀ y m', stepM m (op.withInplace false) = .ok (y, m') →
+      y = m ∧ m' = { T with bc := T.bc.toLower, subs := T.subs.map (restamp T.region) }) :=
+  stepM_copy_accepted_iff m hm hp op T1 T hT
+
+/-- non-vacuity of the round-3 theorems: a mesh whose subregion is OFF the lattice by 1/3 of a cell is a
+legitimate subject of `copy_form_is_constructor_of_inplace` (mesh invariant, proper subregion, no exact
+fit): its in-place translation is accepted, the copying one is refused by the constructor; the D18 iffs
+have instances on both sides at `t = 1e-12`. -/
+example : (⟨⟨[0, 0], [4, 2], ["x", "y"], ["m", "m"], 1/1000000000000⟩, [4, 2], "",
+    [("a", ⟨[1/3, 0], [4/3, 1], ["x", "y"], ["m", "m"], 1/1000000000000⟩)]⟩ : Mesh).invB = true := by decide +kernel
+example : (match stepM ⟨⟨[0, 0], [4, 2], ["x", "y"], ["m", "m"], 1/1000000000000⟩, [4, 2], "",
+      [("a", ⟨[1/3, 0], [4/3, 1], ["x", "y"], ["m", "m"], 1/1000000000000⟩)]⟩ (.translate [1, 1] true) with
+    | .ok _ => true | .error _ => false) = true ∧
+  (match stepM ⟨⟨[0, 0], [4, 2], ["x", "y"], ["m", "m"], 1/1000000000000⟩, [4, 2], "",
+      [("a", ⟨[1/3, 0], [4/3, 1], ["x", "y"], ["m", "m"], 1/1000000000000⟩)]⟩ (.translate [1, 1] false) with
+    | .ok _ => true | .error _ => false) = false := by decide +kernel
+example : misalignedAx (3 * 1000 + 1/100000000000) 1000 (1/1000000000000) = true ∧
+    misalignedAx ((3 + 1/2) * (1/1000000000000)) (1/1000000000000) (1/1000000000000) = false := by decide +kernel
+example : FitsE exM ⟨[0, 2, 0], [4, 5, 2], ["p", "q", "r"], ["a", "b", "c"], 0⟩ ∧ (0 : Rat) < 1000000 :=
+  ⟨fitsE_of_fitsB _ _ (by decide +kernel), by norm_num⟩
+
+/-! ## round 3: the store model (`DFV/Model/C13Store.lean`) — region and subregions are the mesh's own copies -/
+open DFV.S in
+/-- **The setter and the constructor store COPIES; no subregion object is shared** — after ANY session
+(any statements, any aliasing: the same candidate objects for several meshes, one object under two
+names, a mesh's own region or another mesh's subregions as candidates): the ids of all subregion
+objects of all meshes are pairwise different, every subregion object of a mesh was created after the
+mesh's region object (so it is none of the caller's candidates, nor the region), and carries the
+dimension names of the mesh region. -/
+theorem subregions_are_own_copies (sts : List Stmt) :
+    (subIds (run Store.empty sts)).Nodup ∧
+    ∀ mo ∈ (run Store.empty sts).meshes, ∀ p ∈ mo.subs,
+      mo.region < p.2 ∧ p.2 < (run Store.empty sts).regs.length ∧
+      ((run Store.empty sts).reg p.2).dims = ((run Store.empty sts).reg mo.region).dims := by
+  have hg := run_good Store.empty empty_good sts
+  refine ⟨hg.2.1, fun mo hmo p hp => ?_⟩
+  obtain ⟨_, v2, _, _, _, v6⟩ := hg.2.2 mo hmo
+  exact ⟨(v2 p hp).1, (v2 p hp).2, v6 p hp⟩
+
+open DFV.S in
+/-- **"This stays true after translating, scaling, rotating" — in the store**: a mesh object whose value
+satisfies `SubInv` and `BcWf`, in a good store with exclusive region objects (every store reached by a session:
+`DFV.C13.store_invariant_after_any_session`), moved by ANY history of
+in-place steps, still holds the same Region objects, and its value satisfies the mesh invariant and
+`SubInv` with the subregion names in the original order; the other meshes keep their values (hence
+their `SubInv`). -/
+theorem subInv_after_inplace_history_in_store (s : Store) (hg : Good s) (he : RegExcl s) (mid : Nat) (mo : MeshObj)
+    (hmo : s.meshes[mid]? = some mo) (hs : SubInv (absMesh s mo)) (hb : BcWf (absMesh s mo)) (ops : List Op)
+    (hin : ∀ op ∈ ops, op.inplace = true) :
+    ∃ mo', (run s (ops.map (Stmt.meshOp mid))).meshes[mid]? = some mo' ∧ footprint mo' = footprint mo ∧
+      (absMesh (run s (ops.map (Stmt.meshOp mid))) mo').Inv ∧ SubInv (absMesh (run s (ops.map (Stmt.meshOp mid))) mo') ∧
+      (absMesh (run s (ops.map (Stmt.meshOp mid))) mo').subs.map (·.1) = (absMesh s mo).subs.map (·.1) ∧
+      ∀ j moj, j ≠ mid → s.meshes[j]? = some moj →
+        absMesh (run s (ops.map (Stmt.meshOp mid))) moj = absMesh s moj := by
+  obtain ⟨mo', f1, f2, f3, f4, _, _⟩ := inplace_history s hg he mid mo hmo hs hb ops hin
+  have hm := (good_mesh s hg mo (List.mem_of_getElem? hmo)).2.1
+  obtain ⟨r1, r2, r3⟩ := runM_subInv (absMesh s mo) hm hs ops
+  exact ⟨mo', f1, f3, by rw [f2]; exact r1, by rw [f2]; exact r2, by rw [f2]; exact r3, fun j moj hj hmj => (f4 j moj hj hmj).2⟩
 
 end DFV.C14
